@@ -74,6 +74,9 @@ def cases(tier):
             out.append(dict(kind="opts", tpl=tpl, opt=opt))
     for tpl in TEMPLATES:
         out.append(dict(kind="reject", tpl=tpl))
+    for order in (0, 1):
+        for what in ("boundary", "fill_value"):
+            out.append(dict(kind="twogrids", order=order, what=what))
     return out
 
 
@@ -117,7 +120,49 @@ class Recorder:
 
 
 def case(W, cfg):
-    return {"rec": case_rec, "opts": case_opts, "reject": case_reject}[cfg["kind"]](W, cfg)
+    return {"rec": case_rec, "opts": case_opts, "reject": case_reject, "twogrids": case_twogrids}[cfg["kind"]](W, cfg)
+
+
+def case_twogrids(W, cfg):
+    """options bound at definition act as if passed at call time on *every* call: one decorated ufunc, whose
+    bound mapping names only some axes, is used on two grids whose defaults for the other axis differ"""
+    import xgcm
+    from xgcm.grid_ufunc import as_grid_ufunc
+    coords = {"xc": np.arange(2) + 0.5, "xg": np.arange(2) * 1.0, "yc": np.arange(3) + 0.5, "yg": np.arange(3) * 1.0}
+    ds = xr.Dataset(coords=coords)
+    ax = {"X": {"center": "xc", "left": "xg"}, "Y": {"center": "yc", "left": "yg"}}
+    with warnings.catch_warnings():
+        warnings.simplefilter("ignore")
+        gA = xgcm.Grid(ds, coords=ax, periodic=False, boundary={"X": "extend", "Y": "periodic"}, fill_value={"X": 1.5, "Y": 2.5}, autoparse_metadata=False)
+        gB = xgcm.Grid(ds, coords=ax, periodic=False, boundary={"X": "periodic", "Y": "fill"}, fill_value={"X": 3.5, "Y": 4.5}, autoparse_metadata=False)
+    grids = [("A", gA, {"Y": ("periodic", 2.5)}), ("B", gB, {"Y": ("fill", 4.5)})]
+    if cfg["order"]:
+        grids = grids[::-1]
+    fv = W.scalar("fv")
+    if cfg["what"] == "boundary":
+        bound = dict(boundary={"X": "fill"}, fill_value={"X": fv, "Y": fv})
+    else:
+        bound = dict(boundary="fill", fill_value={"X": fv})
+    a = W.data("a", (3, 2))
+    da = xr.DataArray(a, dims=["yc", "xc"])
+    rec = Recorder(W, [2], [(3, 2)])
+    gu = as_grid_ufunc(signature="(V:center,U:center)->(V:left,U:left)", boundary_width={"U": (1, 0), "V": (1, 1)}, **bound)(lambda *arrays: rec(*arrays))
+    for name, g, ydef in grids:
+        rec.received = None
+        gu(g, da, axis=[("Y", "X")])
+        if cfg["what"] == "boundary":
+            yrule, yfill = ydef["Y"][0], fv
+        else:
+            yrule, yfill = "fill", {"A": 2.5, "B": 4.5}[name]
+        want = apply_along(a, 1, lambda v: spec_pad1d(v, 1, 0, "fill", fv))
+        want = apply_along(want, 0, lambda v: spec_pad1d(v, 1, 1, yrule, yfill))
+        got = rec.received[0]
+        W.require("twogrids-shape:%s" % name, tuple(got.shape) == tuple(want.shape), "%s vs %s" % (got.shape, want.shape))
+        if tuple(got.shape) == tuple(want.shape):
+            # corner cells depend on the (unspecified) order in which the axes are padded: compare the rest
+            mask = np.ones(want.shape, dtype=bool)
+            mask[0, 0] = mask[-1, 0] = False
+            W.equal("twogrids-received:%s:grid%s" % (cfg["what"], name), got[mask], want[mask])
 
 
 def make_inputs(W, grid, ds, tpl, bind, lay):
